@@ -11,6 +11,7 @@ import (
 	"go/token"
 	"go/types"
 	"math/big"
+	"sort"
 	"strings"
 
 	"golang.org/x/tools/go/ssa"
@@ -27,7 +28,11 @@ func (vc *VC) declUF(name, sig string) {
 
 // prodTerm: the product of two integer terms; linear when one is a numeral, otherwise an application of the
 // uninterpreted, commutative (by argument ordering) symbol prod with range facts.
-func (vc *VC) prodTerm(x, y string) string {
+func (vc *VC) prodTerm(x, y string) string { return vc.prodTermS(x, y, false) }
+
+// prodTermS: nonneg says both operands are known to be non-negative (unsigned limbs), which licenses the
+// linear bounds 0 <= prod(x,y) <= (2^64-1)*x.
+func (vc *VC) prodTermS(x, y string, nonneg bool) string {
 	if _, ok := intLitBig(x); ok {
 		return app("*", x, y)
 	}
@@ -39,13 +44,34 @@ func (vc *VC) prodTerm(x, y string) string {
 	}
 	vc.declUF("prod", "(Int Int) Int")
 	t := app("prod", x, y)
-	if !vc.trusted["prodfact:"+t] {
+	if strings.Contains(t, "!") {
+		return t // under a binder: no top-level side facts
+	}
+	if nonneg && !vc.trusted["prodfact:"+t] {
 		vc.trusted["prodfact:"+t] = true
 		m1 := new(big.Int).Sub(pow2(64), big.NewInt(1)).String()
 		vc.assume(sAnd(app("<=", "0", t), app("<=", t, app("*", m1, x)), app("<=", t, app("*", m1, y))))
-		if x != y {
-			vc.assume(sEq(t, app("prod", y, x))) // commutativity instance
+	}
+	if !vc.trusted["prodconst:"+t] {
+		vc.trusted["prodconst:"+t] = true
+		// an operand that equals a numeral makes the product linear (0, 1 and the 64-bit constants of the
+		// constant tables this VC refers to)
+		nums := []string{"0", "1"}
+		for n := range vc.knownNumerals {
+			nums = append(nums, n)
 		}
+		sort.Strings(nums)
+		if len(nums) > 24 {
+			nums = nums[:24]
+		}
+		for _, c := range nums {
+			vc.assume(sImp(sEq(y, c), sEq(t, app("*", c, x))))
+			vc.assume(sImp(sEq(x, c), sEq(t, app("*", c, y))))
+		}
+	}
+	if x != y && !vc.trusted["prodcomm:"+t] {
+		vc.trusted["prodcomm:"+t] = true
+		vc.assume(sEq(t, app("prod", y, x))) // commutativity instance
 	}
 	return t
 }
@@ -98,13 +124,32 @@ func (vc *VC) andConst(x *Val, k *big.Int, rt types.Type) *Val {
 func (vc *VC) ufBitop(op token.Token, a, b *Val, rt types.Type) *Val {
 	fn := fmt.Sprintf("bitop_%s_%d", sanitize(op.String()), a.W)
 	vc.declUF(fn, "(Int Int) Int")
-	vc.note("int mode: operator %s abstracted as an uninterpreted function with range constraint", op)
-	r := vc.define("bitop", "Int", app(fn, a.C[0], b.C[0]))
+	t := app(fn, a.C[0], b.C[0])
+	if strings.Contains(t, "!") {
+		return vc.bv(t, a.W, a.Signed, rt) // under a binder: no top-level side facts
+	}
+	vc.note("int mode: operator %s abstracted as an uninterpreted function with boundary facts", op)
+	r := vc.define("bitop", "Int", t)
 	vc.assume(vc.intRange(r, a.W, a.Signed))
-	if op == token.OR && !a.Signed {
+	if !a.Signed {
 		x, y := a.C[0], b.C[0]
-		vc.assume(sAnd(app("<=", x, r), app("<=", y, r), app("<=", r, app("+", x, y)),
-			sEq(sEq(r, "0"), sAnd(sEq(x, "0"), sEq(y, "0")))))
+		ones := new(big.Int).Sub(pow2(a.W), big.NewInt(1)).String()
+		switch op {
+		case token.OR:
+			vc.assume(sAnd(app("<=", x, r), app("<=", y, r), app("<=", r, app("+", x, y)),
+				sImp(sEq(x, "0"), sEq(r, y)), sImp(sEq(y, "0"), sEq(r, x)),
+				sImp(sEq(x, ones), sEq(r, ones)), sImp(sEq(y, ones), sEq(r, ones))))
+		case token.AND:
+			vc.assume(sAnd(app("<=", r, x), app("<=", r, y),
+				sImp(sEq(x, "0"), sEq(r, "0")), sImp(sEq(y, "0"), sEq(r, "0")),
+				sImp(sEq(x, ones), sEq(r, y)), sImp(sEq(y, ones), sEq(r, x))))
+		case token.AND_NOT:
+			vc.assume(sAnd(app("<=", r, x),
+				sImp(sEq(y, "0"), sEq(r, x)), sImp(sEq(y, ones), sEq(r, "0")), sImp(sEq(x, "0"), sEq(r, "0"))))
+		case token.XOR:
+			vc.assume(sAnd(sImp(sEq(x, "0"), sEq(r, y)), sImp(sEq(y, "0"), sEq(r, x)), sImp(sEq(x, y), sEq(r, "0")),
+				sImp(sEq(y, ones), sEq(r, app("-", ones, x))), sImp(sEq(x, ones), sEq(r, app("-", ones, y)))))
+		}
 	}
 	return vc.bv(r, a.W, a.Signed, rt)
 }
@@ -120,7 +165,7 @@ func (vc *VC) binopInt(op token.Token, a, b *Val, rt types.Type) *Val {
 	case token.SUB:
 		return vc.wrapInt(app("-", x, y), w, s, rt)
 	case token.MUL:
-		return vc.wrapInt(vc.prodTerm(x, y), w, s, rt)
+		return vc.wrapInt(vc.prodTermS(x, y, !s && !b.Signed), w, s, rt)
 	case token.EQL:
 		return vc.boolVal(sEq(x, y))
 	case token.NEQ:
@@ -140,7 +185,10 @@ func (vc *VC) binopInt(op token.Token, a, b *Val, rt types.Type) *Val {
 				return vc.bv("0", w, s, rt)
 			}
 			r := vc.wrapInt(app("*", x, pow2(n).String()), w, s, rt)
-			r.LowZeros = n
+			r.LowZeros = n + a.LowZeros
+			if r.LowZeros > w {
+				r.LowZeros = w
+			}
 			return r
 		}
 		if b.Bit != "" {
@@ -332,7 +380,7 @@ func (e *Engine) builtinModel(vc *VC, ins *ssa.Call, f *ssa.Function, args []*Va
 				m := pow2(64).String()
 				hi := vc.fresh("hi", "Int")
 				lo := vc.fresh("lo", "Int")
-				vc.assume(sEq(app("+", app("*", m, hi), lo), vc.prodTerm(x, y)))
+				vc.assume(sEq(app("+", app("*", m, hi), lo), vc.prodTermS(x, y, true)))
 				vc.assume(sAnd(vc.intRange(hi, 64, false), vc.intRange(lo, 64, false)))
 				tuple2(vc.bv(hi, 64, false, u64), vc.bv(lo, 64, false, u64))
 				discarded("high word", hi, "0")
